@@ -328,6 +328,71 @@ def run_easter_tlc(window, ctx):
     ctx.sample({"tlc_window": list(window), "states": len(states), "last": states[-1]})
 
 
+def pesach_tlc_states(a0, a1):
+    import os
+    import re
+    import shutil
+    import subprocess
+    import tempfile
+    from .. import ROOT
+    tmp = tempfile.mkdtemp(prefix="vmc_tlc_")
+    try:
+        shutil.copy(os.path.join(ROOT, "models", "Pesach.tla"), tmp)
+        with open(os.path.join(tmp, "Pesach.cfg"), "w") as f:
+            f.write("CONSTANTS\n A0 = %d\n A1 = %d\nSPECIFICATION Spec\nINVARIANT TypeOK\n" % (a0, a1))
+        dump = os.path.join(tmp, "states")
+        r = subprocess.run(["tlc", "-workers", "1", "-noGenerateSpecTE", "-deadlock", "-metadir",
+                            os.path.join(tmp, "meta"), "-dump", dump, "Pesach"], cwd=tmp, capture_output=True,
+                           text=True, timeout=1200)
+        if "Model checking completed. No error has been found" not in r.stdout:
+            raise RuntimeError("TLC failed:\n" + r.stdout[-2000:] + r.stderr[-500:])
+        return [dict((k, int(v)) for k, v in re.findall(r"/\\ (\w+) = (-?\d+)", blk))
+                for blk in open(dump + ".dump").read().split("State ")[1:]]
+    finally:
+        shutil.rmtree(tmp, ignore_errors=True)
+
+
+# day number (JDE + 0.5) of the model's day 0: fixed by ONE known date, 1 Tishri 5785 = 2024-10-03
+_PESACH_OFFSET = None
+
+
+def run_pesach_tlc(window, ctx):
+    global _PESACH_OFFSET
+    a0, a1 = window
+    states = sorted(pesach_tlc_states(a0, a1), key=lambda s: s["a"])
+    if _PESACH_OFFSET is None:
+        anchor = pesach_tlc_states(5785, 5785)[0]
+        _PESACH_OFFSET = fast().n(2024, 10, 3) - anchor["rh"]
+    for s in states:
+        ctx.evals += 1
+        ctx.states += 1
+        ctx.transitions += 1
+        ctx.nt_count += 1
+        a = s["a"]
+        y = a - 3761
+        n_rh = _PESACH_OFFSET + s["rh"]
+        msgs = []
+        if hebrew.rosh_hashanah_n(a) != n_rh:
+            msgs.append("TLA+ model (molad in parts + dehiyyot) puts 1 Tishri %d on day %d, Python model on %d"
+                        % (a, n_rh, hebrew.rosh_hashanah_n(a)))
+        exp = fast().date(n_rh - 163)
+        try:
+            got = tuple(Epoch.jewish_pesach(y))
+            if (y,) + got != exp:
+                msgs.append("jewish_pesach(%d) = %r, TLA+ model gives %r" % (y, got, exp))
+        except Exception as ex:
+            msgs.append("jewish_pesach(%d) raised %r" % (y, ex))
+        for msg in msgs:
+            ctx.viol({"year": y, "gregorian": y >= 1583}, msg, site="pesach_tlc")
+        ctx.outcome(exp[1:])
+    if len(states) != a1 - a0 + 1:
+        ctx.viol({"year": a0 - 3761}, "TLC dumped %d states for %d years" % (len(states), a1 - a0 + 1), site="pesach_tlc")
+    ctx.traces += 1
+    ctx.count("tlc_states_dumped", len(states))
+    ctx.obs(window, len(states))
+    ctx.sample({"tlc_window_AM": list(window), "states": len(states), "last": states[-1]})
+
+
 def clauses(tier):
     hs = islamic.year_starts(1, 2500)
     n_end = fast().n(3000, 12, 31)
@@ -342,5 +407,7 @@ def clauses(tier):
                shape="S"),
     ] + ([Clause("tlc_cross_model", TLC_WINDOWS, run_tlc, replay_m2g, floor=1000, shape="S"),
           Clause("easter_tlc_model", [(-4712, -2001), (-2000, -1), (0, 1582), (1583, 3999), (4000, 6999), (7000, 10000)],
-                 run_easter_tlc, lambda c: check_easter(c["year"]), floor=10000, shape="S")]
+                 run_easter_tlc, lambda c: check_easter(c["year"]), floor=10000, shape="S"),
+          Clause("pesach_tlc_model", [(3762, 4761), (4762, 5761), (5762, 6761)], run_pesach_tlc,
+                 lambda c: check_pesach(c["year"]), floor=3000, shape="S")]
          if tier == "thorough" and c01.tlc_available() else [])
